@@ -61,6 +61,25 @@ theorem all2_length {α β} (f : α → β → Bool) : ∀ xs ys, all2 f xs ys =
       simp only [all2, Bool.and_eq_true] at h
       simp [all2_length f xs ys h.2]
 
+/-- `len(x) == len(y)` and every pair of the zip: position by position -/
+theorem all2_iff_get {α β} (f : α → β → Bool) : ∀ (xs : List α) (ys : List β),
+    all2 f xs ys = true ↔ xs.length = ys.length ∧ ∀ k (h1 : k < xs.length) (h2 : k < ys.length), f xs[k] ys[k] = true
+  | [], [] => by simp [all2]
+  | [], _ :: _ => by simp [all2]
+  | _ :: _, [] => by simp [all2]
+  | x :: xs, y :: ys => by
+    simp only [all2, Bool.and_eq_true, all2_iff_get f xs ys, List.length_cons, Nat.add_right_cancel_iff]
+    constructor
+    · rintro ⟨h0, hl, hk⟩
+      refine ⟨hl, fun k h1 h2 => ?_⟩
+      cases k with
+      | zero => simpa using h0
+      | succ k => simpa using hk k (by omega) (by omega)
+    · rintro ⟨hl, hk⟩
+      refine ⟨by simpa using hk 0 (by omega) (by omega), hl, fun k h1 h2 => ?_⟩
+      have := hk (k + 1) (by omega) (by omega)
+      simpa only [List.getElem_cons_succ] using this
+
 theorem all2_refl {α} (f : α → α → Bool) : ∀ xs, (∀ x ∈ xs, f x x = true) → all2 f xs xs = true
   | [], _ => rfl
   | x :: xs, h => by
@@ -147,9 +166,12 @@ mutual
     | .tdelta _ => true
     | .cdelta _ => true
     | .fdt _ => true
+    | .ftd _ => true
     | .nat => true
     | .list xs => EVal.labelsOkList xs
     | .tuple xs => EVal.labelsOkList xs
+    | .sub _ xs => EVal.labelsOkList xs
+    | .index i => i.all (· != .nan)
     | .dict _ kvs => EVal.labelsOkKVs kvs
     | .arr _ xs => EVal.labelsOkList xs
     | .series i xs => i.all (· != .nan) && EVal.labelsOkList xs
@@ -200,6 +222,9 @@ theorem eqN_refl_aux : ∀ n, ∀ a : EVal, sizeOf a ≤ n → eqN a a = true :=
     case tdelta d => simp
     case cdelta d => simp
     case fdt d => simp
+    case ftd d => simp
+    case sub c xs => simp at h; exact ⟨by simp, hlist xs (by omega)⟩
+    case index i => exact idxEq_refl i
     case list xs => simp at h; exact hlist xs (by omega)
     case tuple xs => simp at h; exact hlist xs (by omega)
     case arr s xs => simp at h; exact ⟨by simp, hlist xs (by omega)⟩
@@ -241,6 +266,10 @@ theorem eqN_symm_aux : ∀ n, ∀ a b : EVal, sizeOf a ≤ n → eqN a b = eqN b
     case tdelta.tdelta x y => exact Bool.beq_comm
     case cdelta.cdelta x y => exact Bool.beq_comm
     case fdt.fdt x y => exact Bool.beq_comm
+    case ftd.ftd x y => exact Bool.beq_comm
+    case sub.sub c xs d ys =>
+      simp at h; rw [hlist xs ys (by omega), Bool.beq_comm (a := c)]
+    case index.index i j => exact idxEq_symm i j
     case list.list xs ys => simp at h; exact hlist xs ys (by omega)
     case tuple.tuple xs ys => simp at h; exact hlist xs ys (by omega)
     case arr.arr s xs t ys =>
@@ -286,6 +315,12 @@ theorem eqN_trans_aux : ∀ n, ∀ a b c : EVal, sizeOf a ≤ n →
     case tdelta.tdelta.tdelta x y z => simp at hab hbc ⊢; omega
     case cdelta.cdelta.cdelta x y z => simp at hab hbc ⊢; omega
     case fdt.fdt.fdt x y z => simp at hab hbc ⊢; omega
+    case ftd.ftd.ftd x y z => simp at hab hbc ⊢; omega
+    case sub.sub.sub c xs d ys e zs =>
+      simp only [Bool.and_eq_true, beq_iff_eq] at hab hbc ⊢
+      simp at h
+      exact ⟨hab.1.trans hbc.1, hlist xs ys zs (by omega) hab.2 hbc.2⟩
+    case index.index.index i j k => exact idxEq_trans i j k hab hbc
     case list.list.list xs ys zs => simp at h; exact hlist xs ys zs (by omega) hab hbc
     case tuple.tuple.tuple xs ys zs => simp at h; exact hlist xs ys zs (by omega) hab hbc
     case arr.arr.arr s xs t ys u zs =>
@@ -366,7 +401,11 @@ mutual
     | .tdelta _, _ => rfl
     | .cdelta _, _ => rfl
     | .fdt _, _ => rfl
+    | .ftd _, _ => rfl
     | .nat, _ => rfl
+    | .index _, h => h
+    | .sub _ xs, h => by
+        simp only [EVal.norm, EVal.labelsOk] at h ⊢; exact normList_labelsOk xs h
     | .list xs, h => by
         simp only [EVal.norm, EVal.labelsOk] at h ⊢; exact normList_labelsOk xs h
     | .tuple xs, h => by
@@ -406,7 +445,10 @@ def EVal.kind : EVal → Nat × Nat
   | .tdelta _ => (0, 0)
   | .cdelta _ => (0, 0)
   | .fdt _ => (0, 0)
+  | .ftd _ => (0, 0)
   | .nat => (0, 0)
+  | .sub c _ => (7, c)
+  | .index _ => (8, 0)
   | .list _ => (1, 0)
   | .tuple _ => (2, 0)
   | .dict c _ => (3, c)
@@ -419,8 +461,10 @@ theorem kind_norm (a : EVal) : a.norm.kind = a.kind := by
 
 theorem eqN_kind (a b : EVal) (h : eqN a b = true) : a.kind = b.kind := by
   cases a <;> cases b <;> simp only [eqN, Bool.false_eq_true] at h <;> simp [EVal.kind]
-  simp only [Bool.and_eq_true, beq_iff_eq] at h
-  exact h.1.1
+  · simp only [Bool.and_eq_true, beq_iff_eq] at h
+    exact h.1
+  · simp only [Bool.and_eq_true, beq_iff_eq] at h
+    exact h.1.1
 
 theorem eqArr_normList (xs ys : List EVal) :
     eqArr (EVal.normList xs) (EVal.normList ys) = all2 (fun a b => eqN a.norm b.norm) xs ys := by
